@@ -54,6 +54,14 @@ def real_run(job):
                 calls.append((p.line_monitor.physical_line_number, bool(r), bool(p.stopped), int(p.advance_count), int(p.match_count)))
                 return r
             p.matches = wrapped
+            nread = [0]
+            orig_nl = p._next_line
+
+            def counting():     # the records the run reads, counted where next() takes them from the reader
+                for rec in orig_nl():
+                    nread[0] += 1
+                    yield rec
+            p._next_line = counting
             m = job["method"]
             lines = None
             try:
@@ -85,7 +93,7 @@ def real_run(job):
             "scanner": {"these": list(sc.these), "from": sc.from_line, "to": sc.to_line, "all": bool(sc.all_lines)},
             "cwnm": bool(p.collect_when_not_matched), "unm_avail": bool(p.unmatched_available),
             "will_run": bool(p.will_run), "stdout": getattr(cap, "text", None), "metadata": {k: v for k, v in (p.metadata or {}).items()},
-            "headers": list(p.headers or []),
+            "headers": list(p.headers or []), "records_read": nread[0],
         })
     except Exception as ex:  # parse errors etc.
         obs["exc"] = "SETUP " + type(ex).__name__ + ": " + str(ex)[:80]
